@@ -387,10 +387,14 @@ def job_stats(which, n):
       else:
         claims += [('all-NaN: mean is NaN', SV.lift(m.mean).nan), ('all-NaN: var is NaN', SV.lift(m.var).nan)]
       claims += [('count==#non-NaN', symx.eq_claim(m.count, cnt)), ('function-api count', symx.eq_claim(f_cnt, cnt))]
-    elif which == 'moments2d':
+    elif which in ('moments2d', 'moments2d_2batches'):
       rows = [[c.real(f'x{i}_{j}', nan=True) for j in range(2)] for i in range(n)]
       with symx.patched(*mods):
-        m = rs.MeanAndVariance(); m.add([list(r) for r in rows])
+        m = rs.MeanAndVariance()
+        if which == 'moments2d':
+          m.add([list(r) for r in rows])
+        else:                       # the accumulator API over two batches must give the definition over all rows
+          m.add([list(r) for r in rows[:n - 1]]); m.add([list(r) for r in rows[n - 1:]])
       for j in range(2):
         valid = [r[j] for r in rows if not isnan_const(r[j])]
         claims.append((f'col{j} count', symx.eq_claim(at(m.count, j), len(valid))))
@@ -605,7 +609,7 @@ def run(tier):
       jobs.append(('topk', (tuple(kl), 1 if q else 2, a)))
   for kl, npred in (((1, 2, 3), 3), ((2,), 3), ((1, 2), 2)):
     jobs.append(('retrieval', (kl, 1 if q else 2, npred)))
-  for w in ('moments', 'moments2d', 'minmax', 'histogram', 'calibration', 'tjur', 'pearson', 'spd'):
+  for w in ('moments', 'moments2d', 'moments2d_2batches', 'minmax', 'histogram', 'calibration', 'tjur', 'pearson', 'spd'):
     jobs.append(('stats', (w, (2 if w == 'pearson' else 3) if q else (3 if w == 'pearson' else 4))))
   for w in ('flip', 'topk_accurate', 'cross_entropy'):
     jobs.append(('signals', (w, 3)))
